@@ -393,6 +393,8 @@ def check_C05(tier, seed):
             d = dict(d, owner="C05", field="isolation:" + d["field"])
         judge(rep, "C05", b, kw, d, {"C05"})
     rep.notes.append("%d behaviours replayed with a scheduler that mutates every object the Interface hands out" % len(jobs))
+    from .control import check_control
+    check_control(rep, tier)
     return rep.finish()
 
 
